@@ -75,6 +75,7 @@ class Session:
         self.n_sqrt = 0
         self.n_aux = 0
         self.outcome_vars = []
+        self.aux_vars = []
         self.stats = {"checks": 0, "solver_s": 0.0, "sat": 0, "unsat": 0, "unknown": 0, "forks": 0}
         self.summaries = {}
         self.info = {}
@@ -124,6 +125,14 @@ class Session:
         re = self.real(name + "_re")
         im = self.real(name + "_im")
         return SymComplex(re.e, im.e)
+
+    def aux_bit(self, label="aux"):
+        """fresh free 0/1 variable of the ORACLE side (e.g. an outcome of the reference simulator): obligations are
+        proved for all of its values; its model value is stored for the replay"""
+        k = len(self.aux_vars)
+        v = z3.Bool(f"aux!{k}")
+        self.aux_vars.append((f"aux!{k}", v, label))
+        return SymInt.from_bit(v)
 
     def outcome(self, label="outcome"):
         """fresh symbolic 0/1 value standing for one RNG draw (DESIGN 2.5); not a declared input"""
@@ -268,7 +277,7 @@ class Session:
         self.model = None
         return SymReal(s)
 
-    def fresh_bool(self, hint="aux"):
+    def fresh_bool(self, hint="tmp"):
         self.n_aux += 1
         return z3.Bool(f"{hint}!{self.n_aux}")
 
@@ -290,7 +299,8 @@ class Session:
         for name, v, label in self.outcome_vars:
             val = m.eval(v, model_completion=True)
             rng.append(1 if z3.is_true(val) else 0)
-        return {"inputs": out, "rng": rng}
+        aux = [1 if z3.is_true(m.eval(v, model_completion=True)) else 0 for _, v, _ in self.aux_vars]
+        return {"inputs": out, "rng": rng, "aux": aux}
 
     def prove(self, name, claim, detail=None):
         """Obligation: `claim` must hold for every value of the symbolic variables consistent with this path."""
@@ -363,6 +373,7 @@ class Session:
         self.dead = None
         self.n_outcomes = 0
         self.outcome_vars = []
+        self.aux_vars = []
         self.model = None
         self.info = {}
         self.solver.push()
@@ -430,6 +441,8 @@ class ConcreteSession:
         self.inputs = dict(model.get("inputs", {}))
         self.rng = list(model.get("rng", []))
         self.rng_pos = 0
+        self.aux = list(model.get("aux", []))
+        self.aux_pos = 0
         self.failed = []
         self.checked = 0
         self.assumption_failed = None
@@ -470,6 +483,11 @@ class ConcreteSession:
         else:
             v = 0
         self.rng_pos += 1
+        return int(v)
+
+    def aux_bit(self, label="aux"):
+        v = self.aux[self.aux_pos] if self.aux_pos < len(self.aux) else 0
+        self.aux_pos += 1
         return int(v)
 
     def assume(self, cond):
